@@ -6,7 +6,7 @@ from . import gencrate as GC
 from . import datacases as D
 
 THEOREMS = ["C08_crypto_stream_roundtrip", "C08_write_fault", "C08_write_fault_flushed", "C08_drop_after_failed_flush_silent"]
-HEADER = "From SF Require Import Bytes Crypto HarnessC8.\nImport ListNotations.\nOpen Scope N_scope.\n"
+HEADER = "From Coq Require Import String.\nFrom SF Require Import Bytes Crypto CryptoIo HarnessC8.\nImport ListNotations.\nOpen Scope string_scope.\nOpen Scope N_scope.\n"
 
 SCHEDS = ["1", "2", "7", "3,1,4,1,5,9,2,6", "0,1", "3,0", "0,5,0,0,2", "8,0,4", "1,1,1,0"]
 
@@ -145,6 +145,58 @@ def run(chk, tier, seed):
     chk.cov["traces_validated_against_impl"] += len(terms)
     chk.add_eval(len(meta) + len(progs))
     chk.cov["fault_offsets_enumerated"] = sum(len(obs.get(c, " ").split(" ")[-1]) for c, m in meta.items() if m["kind"] in ("wfault", "rfault"))
+    # ---- CryptoReader state machine: served read_exact requests under chunk / Interrupted / fault schedules (CryptoIo.v) ----
+    progs = ["w5,f,w3", "w1", "w0", "-", "w40,f,w1,f,w17", "w30", "f,w9,f", "w12,w13,f,w2"]
+    slines, smeta = [], {}
+    ns = 0
+    for _ in range(60 if tier == "quick" else 600):
+        prog = rng.choice(progs)
+        total = sum(int(x[1:]) for x in prog.split(",") if x.startswith("w"))
+        tam = rng.choice(["-"] * 5 + ["p%d:%d" % (rng.randrange(12 + 24 + total + 40), rng.randrange(256)), "t%d" % rng.randrange(12 + 24 + total + 30), "d0", "d1"])
+        sched = rng.choice(["-", "-", ",".join(str(rng.choice([0, 0, 1, 1, 2, 3, 5, 8, 13, 100])) for _ in range(rng.randint(1, 40)))])
+        budget = rng.choice(["-"] * 4 + [str(rng.randrange(0, 12 + 24 + total + 30))])
+        reqs, left = [], total + rng.choice([0, 0, 1, 5])
+        while left > 0 and len(reqs) < 12:
+            r = rng.choice([0, 1, 1, 2, 3, 4, 8, left])
+            reqs.append(r)
+            left -= max(r, 1)
+        ns += 1
+        slines.append("S%d crypto_serve %s %s %s %s %s" % (ns, prog, tam, sched, budget, ",".join(map(str, reqs)) or "-"))
+        smeta["S%d" % ns] = (ns, sched, budget, reqs)
+    sobs = C.run_harness(binary, slines, timeout=600)
+    sterms = []
+    kinds = {}
+    for cid, (k, sched, budget, reqs) in smeta.items():
+        o = sobs.get(cid, "MISSING")
+        try:
+            _, fhex, _, table, _, res = o.split(" ")
+        except ValueError:
+            chk.violations.append(("serving reads through a CryptoReader did not complete: " + o[:100], {"harness_line": slines[k - 1]}))
+            continue
+        tb = []
+        for ent in ([] if table == "-" else table.split(";")):
+            nn, pt = ent.split("=")
+            d1, d2, ct = nn.split(".")
+            tb.append("(%s, %s, %s, %s)" % (d1, d2, D.hexlit(ct), D.hexlit(pt)))
+        ob = []
+        for r in ([] if (res == "-" and not reqs) else res.split(",")):
+            if r[:2] in ("E:", "N:"):
+                ob.append("IoErr IoEof" if r[2:] == "eof" else "IoErr IoOther")
+                kinds[r] = kinds.get(r, 0) + 1
+            else:
+                ob.append("IoOk %s" % D.hexlit(r))       # "-" is the empty byte string
+        sterms.append((k, "agree_serve [%s] %s [%s] %s [%s] [%s]" % (";".join(tb), D.hexlit(fhex), "" if sched == "-" else sched.replace(",", ";"),
+                                                                     "None" if budget == "-" else "(Some %s)" % budget, ";".join(map(str, reqs)), ";".join(ob))))
+        chk.distinct.add(("serve", slines[k - 1].split(" ", 2)[2]))
+    sbad, serrs = C.coq_eval_bad("C08_serve", HEADER, sterms, shard=40)
+    for ids, out in serrs:
+        chk.broken.append("serve shard failed to evaluate (cases %s..): %s" % (ids[:3], out[-400:]))
+    for i in sbad[:8]:
+        chk.broken.append("correspondence C08 serve case S%d: CryptoIo.serve (model) and CryptoReader disagree: %s => %s" % (i, slines[i - 1][:200], sobs.get("S%d" % i, "").split(" RES ")[-1][:200]))
+    chk.cov["traces_validated_against_impl"] += len(sterms)
+    chk.cov["serve_cases"] = len(sterms)
+    chk.cov["serve_error_kinds"] = kinds
+    chk.add_eval(len(smeta))
     chk.cov["rule"] = ("for sampled (type, value): EVERY writer failure offset 0..len x {Other, BrokenPipe, Ok(0)} in plain / noschema / bzip2 containers, sampled offsets under the "
                        "encrypted container (child process per offset), EVERY reader failure offset in 4 containers, short-write / Interrupted writer schedules, 9 reader "
                        "chunk schedules incl. Interrupted; frame structure of CryptoWriter for write/flush programs around the 100 000-byte boundary against the model in Coq")
